@@ -249,6 +249,20 @@ pub fn run(tier: Tier, seed: u64) -> i32 {
                     // any other digit sequence is rejected (a few per case; all one-digit changes for small ones)
                     let mut wrongs: Vec<Vec<u8>> = vec![];
                     let step = if digits.len() <= 12 || tier == Tier::Thorough { 1 } else { digits.len() / 6 + 1 };
+                    // aliases of the right digits a "helpful" normalisation would fold back: ASCII '0'..'9', +10, high bit set
+                    for delta in [48u8, 10, 0x80, 246] {
+                        let mut all = digits.clone();
+                        for x in all.iter_mut() {
+                            *x = x.wrapping_add(delta);
+                        }
+                        wrongs.push(all);
+                        let mut one = digits.clone();
+                        let k = (sd as usize) % one.len().max(1);
+                        if let Some(x) = one.get_mut(k) {
+                            *x = x.wrapping_add(delta);
+                        }
+                        wrongs.push(one);
+                    }
                     for i in (0..digits.len()).step_by(step) {
                         let mut w2 = digits.clone();
                         w2[i] = (w2[i] + 1) % 10;
